@@ -10,4 +10,15 @@ theorem kth_use_this_tree (k : Nat) :
     CS.after (mb_keyRotationInterval.getD 0) k CS.init = ⟨k / 1000, k % 1000⟩ :=
   Lnc.Props.C08.kth_use 1000 (by decide) k
 
+/-- **the nonce schedule of the model is the code's**: in Encrypt and in Decrypt
+    the nonce is incremented first, the rotation test follows, and both use
+    the same test; rotation derives the next key from the old key and the salt
+    and re-keys the AEAD through InitializeKey (which also restarts the nonce) -/
+theorem nonce_then_rotation_in_both_directions :
+    skel_cipherState_Encrypt.take 6 = ["defer", "call:(func() literal)", "incdec:c.nonce", "if", "cond:c.nonce == keyRotationInterval", "call:c.rotateKey"] ∧
+    skel_cipherState_Decrypt.take 6 = ["defer", "call:(func() literal)", "incdec:c.nonce", "if", "cond:c.nonce == keyRotationInterval", "call:c.rotateKey"] ∧
+    skel_cipherState_rotateKey = ["call:hkdf.New", "arg:sha256.New", "arg:oldKey[:]", "arg:c.salt[:]", "arg:info", "call:h.Read", "call:h.Read", "call:c.InitializeKey"] ∧
+    skel_cipherState_InitializeKey.contains "call:chacha20poly1305.New" = true ∧
+    skel_cipherState_InitializeKey.contains "assign:c.nonce" = true := by decide
+
 end Lnc.Inst.C08
